@@ -214,60 +214,103 @@ def recommendations(ctx):
 
 
 def context_plumbing(ctx):
-    """Wnaf::{base, scalar, shared}: the staging code only passes its own buffers, window and arguments on to
-    wnaf_table / wnaf_form / wnaf_exp (recorded as uninterpreted calls)."""
+    """Wnaf::{base, scalar, shared}: the staging code only hands its own buffers, the recommended window and its arguments on to
+    wnaf_table / wnaf_form / wnaf_exp (recorded here as uninterpreted calls).  Together with "wnaf_table / wnaf_form discard whatever the
+    buffer held" (steps above start from junk) this gives: a reused context returns what a fresh one would."""
     chk = ctx.chk
     proj, aff = 'ec::g1::G1', 'ec::g1::G1Affine'
     calls = []
 
     def rec(name):
         def h(ex, st, m, a):
-            calls.append((name, a))
+            calls.append((name, list(a)))
             if name == 'wnaf_exp':
-                return GE(proj, [z3.BitVec('exp_result', W)])
+                return GE(proj, [z3.BitVec('exp_result_%d' % len(calls), WS)])
             return UNIT
         return h
 
     def m_asmut(ex, st, m, a):
-        r = a[0]
-        v = ex.load(st, r)
-        return v if isinstance(v, Ref) else r
+        v = ex.load(st, a[0])
+        return v if isinstance(v, Ref) else a[0]
 
     def m_asref_slice(ex, st, m, a):
         r = a[0]
         v = ex.load(st, r)
         if isinstance(v, Ref):
-            r, v = v, ex.load(st, v)
+            r, v = v, ex.load(st, Ref(v.addr, v.path))
         if r.length is not None:
             return r
         return Ref(r.addr, r.path, BV(64, False, 0), BV(64, False, len(v.f)))
     D = models.GroupDomain(proj, aff).setup(1, proj, aff)
-    extra = [(r'wnaf::wnaf_table::<.+>|wnaf_table::<.+>', rec('wnaf_table')), (r'wnaf::wnaf_form::<.+>|wnaf_form::<.+>', rec('wnaf_form')),
-             (r'wnaf::wnaf_exp::<.+>|wnaf_exp::<.+>', rec('wnaf_exp')),
+    WN, WSC = z3.BitVec('window_for_num_scalars', 64), z3.BitVec('window_for_scalar', 64)
+    extra = [(r'(?:wnaf::)?wnaf_table::<.+>', rec('wnaf_table')), (r'(?:wnaf::)?wnaf_form::<.+>', rec('wnaf_form')), (r'(?:wnaf::)?wnaf_exp::<.+>', rec('wnaf_exp')),
              (r'<.+ as AsMut<Vec<.+>>>::as_mut', m_asmut), (r'<.+ as AsRef<\[.+\]>>::as_ref', m_asref_slice),
-             (r'<.+ as CurveProjective>::recommended_wnaf_for_num_scalars', lambda ex, st, m, a: BV(64, False, z3.BitVec('win_n', 64))),
-             (r'<.+ as CurveProjective>::recommended_wnaf_for_scalar', lambda ex, st, m, a: BV(64, False, z3.BitVec('win_s', 64)))]
-    ex = C.new_executor(ctx, D.models(), extra_models=extra, generics_hint={'base': {'G': proj}, 'scalar': {'G': proj}})
+             (r'<.+ as CurveProjective>::recommended_wnaf_for_num_scalars', lambda ex, st, m, a: BV(64, False, WN)),
+             (r'<.+ as CurveProjective>::recommended_wnaf_for_scalar', lambda ex, st, m, a: BV(64, False, WSC))]
+    ex = C.new_executor(ctx, D.models(), extra_models=extra)
+
+    def body(meth, nparams, first):
+        fl = [f for f in ex.fns_named(meth) if f.name.startswith('wnaf::') and len(f.params) == nparams and first in f.params[0][1]]
+        if len(fl) != 1:
+            raise Inconclusive('Wnaf::%s body not identified (%d candidates)' % (meth, len(fl)))
+        return fl[0]
+    f_base0 = body('base', 3, 'Wnaf<(), ')
+    f_scalar0 = body('scalar', 2, 'Wnaf<(), ')
+    f_base1 = body('base', 2, 'Wnaf<usize, B, S>')
+    f_scalar1 = body('scalar', 2, 'Wnaf<usize, B, S>')
+    P = GE(proj, [z3.BitVec('P', WS)])
+    kv, kl = limbs_val('k')
+    junk_b = Agg('Vec', (GE(proj, [z3.BitVecVal(5, WS)]),) * 3)
+    junk_s = Agg('Vec', (BV(64, True, 9), BV(64, True, -1)))
+    sub = {'G': proj}
+
+    def same_place(r, target):
+        return isinstance(r, Ref) and r.addr == target.addr and r.path == target.path
+
+    def is_win(v, sym):
+        return isinstance(v, BV) and not v.concrete and v.v.eq(sym)
+    # ---- order 1: base first, then scalar
     st = State()
-    junk_b = Agg('Vec', (GE(proj, [z3.BitVecVal(5, W)]),) * 5)
-    junk_s = Agg('Vec', (BV(64, True, 9),))
-    ctxv = ex.alloc(st, Agg('wnaf::Wnaf', (junk_b, junk_s, UNIT)))
-    basept = GE(proj, [z3.BitVec('P', W)])
-    # Wnaf<(), Vec<G>, Vec<i64>>::base(&mut self, base, num_scalars)
-    fb = [f for f in ex.fns_named('base') if len(f.params) == 3]
-    fs = [f for f in ex.fns_named('scalar') if len(f.params) == 2 and 'Repr' in f.params[1][1] or len(f.params) == 2]
-    if len(fb) != 1:
-        raise Inconclusive('Wnaf::base(&mut self, base, n): %d bodies' % len(fb))
-    w1 = ex.call_fn(st, fb[0], [ctxv, basept, BV(64, False, z3.BitVec('num', 64))], {'G': proj})
-    ok = (len(calls) == 1 and calls[0][0] == 'wnaf_table' and isinstance(calls[0][1][0], Ref) and
-          calls[0][1][0].key()[:2] == ctxv.ext(('f', 0)).key()[:2] and calls[0][1][1] is basept)
-    win_ok = ok and isinstance(calls[0][1][2], BV) and str(calls[0][1][2].v) == 'win_n'
-    chk.ground('Wnaf::base builds the table in its own base buffer from (base, recommended window)', ok and win_ok, str(calls)[:200])
-    ok2 = isinstance(w1, Agg) and isinstance(w1.f[0], Ref) and w1.f[0].addr == ctxv.addr and isinstance(w1.f[1], Ref) and \
-        w1.f[1].key()[:2] == ctxv.ext(('f', 1)).key()[:2] and isinstance(w1.f[2], BV) and str(w1.f[2].v) == 'win_n'
-    chk.ground('Wnaf::base returns {base: &self.base[..], scalar: &mut self.scalar, window}', ok2, str(w1)[:200])
+    c0 = ex.alloc(st, Agg('wnaf::Wnaf', (junk_b, junk_s, UNIT)))
+    bref, sref = c0.ext(('f', 0)), c0.ext(('f', 1))
+    del calls[:]
+    w1 = ex.call_fn(st, f_base0, [c0, P, BV(64, False, z3.BitVec('num', 64))], dict(sub))
+    ok = len(calls) == 1 and calls[0][0] == 'wnaf_table' and same_place(calls[0][1][0], bref) and calls[0][1][1] is P and is_win(calls[0][1][2], WN)
+    ok2 = isinstance(w1, Agg) and same_place(w1.f[0], bref) and w1.f[0].length is not None and same_place(w1.f[1], sref) and is_win(w1.f[2], WN)
+    chk.ground('Wnaf::base(base, n): table built in the context\'s own base buffer with the recommended window; returns {its table, its digit buffer, window}', ok and ok2, str(calls)[:150])
+    w1r = ex.alloc(st, w1)
+    del calls[:]
+    r = ex.call_fn(st, f_scalar1, [w1r, kv], dict(sub))
+    ok = (len(calls) == 2 and calls[0][0] == 'wnaf_form' and same_place(calls[0][1][0], sref) and calls[0][1][1] is kv and is_win(calls[0][1][2], WN)
+          and calls[1][0] == 'wnaf_exp' and same_place(calls[1][1][0], bref) and same_place(calls[1][1][1], sref) and isinstance(r, GE) and 'exp_result' in str(r.c[0]))
+    chk.ground('...scalar(k): digits recoded into the context\'s digit buffer with the SAME window, then wnaf_exp(table, digits) is returned', ok, str([c[0] for c in calls]))
+    # ---- order 2: scalar first, then base
+    st = State()
+    c0 = ex.alloc(st, Agg('wnaf::Wnaf', (junk_b, junk_s, UNIT)))
+    bref, sref = c0.ext(('f', 0)), c0.ext(('f', 1))
+    del calls[:]
+    w2 = ex.call_fn(st, f_scalar0, [c0, kv], dict(sub))
+    ok = len(calls) == 1 and calls[0][0] == 'wnaf_form' and same_place(calls[0][1][0], sref) and calls[0][1][1] is kv and is_win(calls[0][1][2], WSC)
+    ok2 = isinstance(w2, Agg) and same_place(w2.f[0], bref) and same_place(w2.f[1], sref) and w2.f[1].length is not None and is_win(w2.f[2], WSC)
+    chk.ground('Wnaf::scalar(k): digits recoded in the context\'s own digit buffer with the recommended window; returns {its table buffer, its digits, window}', ok and ok2, str(calls)[:150])
+    w2r = ex.alloc(st, w2)
+    del calls[:]
+    r = ex.call_fn(st, f_base1, [w2r, P], dict(sub))
+    ok = (len(calls) == 2 and calls[0][0] == 'wnaf_table' and same_place(calls[0][1][0], bref) and calls[0][1][1] is P and is_win(calls[0][1][2], WSC)
+          and calls[1][0] == 'wnaf_exp' and same_place(calls[1][1][0], bref) and same_place(calls[1][1][1], sref) and isinstance(r, GE))
+    chk.ground('...base(P): table built in the context\'s table buffer with the SAME window, then wnaf_exp(table, digits) is returned', ok, str([c[0] for c in calls]))
+    # ---- shared(): fresh owned buffer for the other half, same borrowed half and window
+    for first, idx_same, idx_new in (('&[G]', 0, 1), ('&mut Vec<G>', 1, 0)):
+        fl = [f for f in ex.fns_named('shared') if f.name.startswith('wnaf::') and first in f.params[0][1]]
+        if len(fl) != 1:
+            raise Inconclusive('Wnaf::shared body not identified')
+        src = w1 if idx_same == 0 else w2
+        sr = ex.alloc(st, src)
+        sh = ex.call_fn(st, fl[0], [sr], dict(sub))
+        okc = isinstance(sh, Agg) and isinstance(sh.f[idx_same], Ref) and sh.f[idx_same].key() == src.f[idx_same].key() and isinstance(sh.f[idx_new], Agg) \
+            and len(sh.f[idx_new].f) == 0 and isinstance(sh.f[2], BV) and sh.f[2].v.eq(src.f[2].v)
+        chk.ground('Wnaf::shared (%s kept): same borrowed half and window, fresh empty buffer for the other half' % first, okc, str(sh)[:150])
     chk.add_executor(ex)
-    return
 
 
 def run_part(ctx):
@@ -277,3 +320,4 @@ def run_part(ctx):
     for gname, proj, aff in [('G1', 'ec::g1::G1', 'ec::g1::G1Affine'), ('G2', 'ec::g2::G2', 'ec::g2::G2Affine')]:
         wnaf_exp_steps(ctx, proj, aff, gname, windows if gname == 'G1' or tier == 'thorough' else [2, 4, 12, 22])
     recommendations(ctx)
+    context_plumbing(ctx)
